@@ -1,11 +1,1068 @@
-//! C11 -- not built yet (stub so the crate layout is stable).
-use crate::engine::report::{Ctx, Report};
-use serde_json::Value;
+//! C11 -- kitty graphics output transmits exactly the image; draw and erase stay paired.
+//!
+//! The real `KittyImageHandler` is driven through every history of
+//! draw / erase(Some) / erase(None) / handle(KittyImage ok|error) / handle(other) operations
+//! over seven images (1x1, 2x3, a strided crop, a re-allocated copy, an empty image, an image
+//! whose base64 payload is exactly 4096 bytes, a three-chunk image with a short last chunk) and
+//! four positions, to depth 3 without any deduplication and to depth 4 (quick) / 6 (thorough)
+//! deduplicated by (set of transmitted contents, reference terminal state). Every byte the handler writes is
+//! parsed by an independent kitty-graphics parser and executed by a reference terminal
+//! (`model::kitty`); the oracle is the property statement, evaluated on what that terminal saw.
+//! Two further exhaustive spaces exercise the payload path: single-pixel images over every value
+//! of every channel, and every image shape of a size lattice around the chunk boundaries.
+use crate::engine::bfs;
+use crate::engine::catch;
+use crate::engine::report::{Ctx, Report, Samples, Tier, Violations};
+use crate::engine::util::{esc, hash128, hash64};
+use crate::model::kitty::{parse_graphics, tokenize, Chunk, Cmd, KittyTerm, Outcome, Tok};
+use rayon::prelude::*;
+use serde_json::{json, Value};
+use std::collections::{BTreeMap, BTreeSet, HashSet};
+use std::sync::atomic::{AtomicBool, AtomicU64, Ordering};
+use std::sync::Mutex;
+use surf_n_term::{
+    Image, ImageHandler, KittyImageHandler, Position, Size, SurfaceOwned, TerminalEvent, RGBA,
+};
 
-pub fn run(_ctx: &Ctx) -> Result<Report, String> {
-    Err("C11: check not built yet".into())
+// --------------------------------------------------------------------------------------------
+// images (the harness keeps its own copy of the pixels; the library is never asked for them)
+// --------------------------------------------------------------------------------------------
+
+#[derive(Clone)]
+struct Img {
+    name: String,
+    h: usize,
+    w: usize,
+    /// row-major RGBA of the image *as seen by a viewer* (after cropping)
+    px: Vec<[u8; 4]>,
+    image: Image,
+    /// index of the content class (images with equal size and pixels share one)
+    content: usize,
 }
 
-pub fn replay(_w: &Value) -> Result<(bool, String), String> {
-    Err("C11: check not built yet".into())
+fn pixel(i: usize) -> [u8; 4] {
+    [
+        (i * 7 + 1) as u8,
+        (i * 13 + 2) as u8,
+        (i * 29 + 3) as u8,
+        (i * 31 + 5) as u8,
+    ]
+}
+
+fn owned(h: usize, w: usize, px: &[[u8; 4]]) -> Image {
+    let surf = SurfaceOwned::new_with(Size::new(h, w), |p| {
+        let [r, g, b, a] = px[p.row * w + p.col];
+        RGBA::new(r, g, b, a)
+    });
+    Image::from(surf)
+}
+
+fn plain(name: &str, h: usize, w: usize, first: usize) -> Img {
+    let px: Vec<[u8; 4]> = (0..h * w).map(|i| pixel(first + i)).collect();
+    Img { name: name.into(), h, w, image: owned(h, w, &px), px, content: 0 }
+}
+
+/// rows r0..r1, cols c0..c1 of `base`, as a strided view sharing the allocation
+fn cropped(name: &str, base: &Img, r0: usize, r1: usize, c0: usize, c1: usize) -> Img {
+    let mut px = vec![];
+    for r in r0..r1 {
+        for c in c0..c1 {
+            px.push(base.px[r * base.w + c]);
+        }
+    }
+    Img {
+        name: name.into(),
+        h: r1 - r0,
+        w: c1 - c0,
+        px,
+        image: base.image.crop(r0..r1, c0..c1),
+        content: 0,
+    }
+}
+
+fn assign_contents(imgs: &mut [Img]) -> usize {
+    let mut classes: Vec<(usize, usize, Vec<[u8; 4]>)> = vec![];
+    for im in imgs.iter_mut() {
+        let key = (im.h, im.w, im.px.clone());
+        im.content = match classes.iter().position(|c| *c == key) {
+            Some(i) => i,
+            None => {
+                classes.push(key);
+                classes.len() - 1
+            }
+        };
+    }
+    classes.len()
+}
+
+fn history_images() -> Vec<Img> {
+    let a = plain("A", 1, 1, 0);
+    let b = plain("B", 2, 3, 10);
+    let c = cropped("C", &b, 0, 1, 1, 3);
+    let d = plain("D", 1, 1, 0); // same pixels as A, different allocation
+    let e = plain("E", 0, 3, 0); // empty
+    let f = plain("F", 16, 48, 100); // 768 px -> 3072 bytes -> base64 exactly 4096
+    let g = plain("G", 29, 53, 1000); // 1537 px -> 6148 bytes -> base64 8200 = 4096 + 4096 + 8
+    let mut v = vec![a, b, c, d, e, f, g];
+    assign_contents(&mut v);
+    v
+}
+
+const POSITIONS: [(usize, usize); 4] = [(0, 0), (0, 1), (1, 0), (65535, 65535)];
+
+// --------------------------------------------------------------------------------------------
+// operations
+// --------------------------------------------------------------------------------------------
+
+#[derive(Debug, Clone, Copy, PartialEq, Eq, Hash)]
+enum IdRef {
+    Img(usize),
+    Unknown,
+}
+
+#[derive(Debug, Clone, Copy, PartialEq, Eq, Hash)]
+enum PlRef {
+    Absent,
+    Pos(usize),
+    Unknown,
+}
+
+#[derive(Debug, Clone, Copy, PartialEq, Eq, Hash)]
+enum Op {
+    Draw(usize, usize),
+    EraseAt(usize, usize),
+    EraseAll(usize),
+    Resp { id: IdRef, pl: PlRef, error: bool },
+    Other,
+}
+
+/// What the probe pass learned from the handler's own output: image ids and placement ids.
+#[derive(Clone, Default)]
+struct Env {
+    imgs: Vec<Img>,
+    id_of: Vec<Option<u64>>,
+    pid_of: Vec<Option<u64>>,
+    unknown_id: u64,
+    unknown_pid: u64,
+}
+
+impl Env {
+    fn op_json(&self, op: &Op) -> Value {
+        let pos = |p: usize| json!([POSITIONS[p].0, POSITIONS[p].1]);
+        match op {
+            Op::Draw(i, p) => json!({"op": "draw", "img": self.imgs[*i].name, "pos": pos(*p)}),
+            Op::EraseAt(i, p) => json!({"op": "erase", "img": self.imgs[*i].name, "pos": pos(*p)}),
+            Op::EraseAll(i) => json!({"op": "erase", "img": self.imgs[*i].name, "pos": null}),
+            Op::Resp { id, pl, error } => json!({
+                "op": "response",
+                "error": error,
+                "img": match id { IdRef::Img(i) => json!(self.imgs[*i].name), IdRef::Unknown => json!("?") },
+                "placement": match pl { PlRef::Absent => Value::Null, PlRef::Pos(p) => pos(*p), PlRef::Unknown => json!("?") },
+            }),
+            Op::Other => json!({"op": "other-event"}),
+        }
+    }
+
+    fn op_from_json(&self, v: &Value) -> Result<Op, String> {
+        let img = |v: &Value| -> Result<usize, String> {
+            let n = v.as_str().ok_or("img")?;
+            self.imgs.iter().position(|i| i.name == n).ok_or(format!("unknown image {n}"))
+        };
+        let pos = |v: &Value| -> Result<usize, String> {
+            let r = v[0].as_u64().ok_or("pos")? as usize;
+            let c = v[1].as_u64().ok_or("pos")? as usize;
+            POSITIONS.iter().position(|p| *p == (r, c)).ok_or(format!("position {r},{c} not in the alphabet"))
+        };
+        match v["op"].as_str().ok_or("op")? {
+            "draw" => Ok(Op::Draw(img(&v["img"])?, pos(&v["pos"])?)),
+            "erase" if v["pos"].is_null() => Ok(Op::EraseAll(img(&v["img"])?)),
+            "erase" => Ok(Op::EraseAt(img(&v["img"])?, pos(&v["pos"])?)),
+            "response" => Ok(Op::Resp {
+                id: if v["img"] == json!("?") { IdRef::Unknown } else { IdRef::Img(img(&v["img"])?) },
+                pl: if v["placement"].is_null() {
+                    PlRef::Absent
+                } else if v["placement"] == json!("?") {
+                    PlRef::Unknown
+                } else {
+                    PlRef::Pos(pos(&v["placement"])?)
+                },
+                error: v["error"].as_bool().ok_or("error")?,
+            }),
+            "other-event" => Ok(Op::Other),
+            o => Err(format!("unknown op {o}")),
+        }
+    }
+}
+
+fn alphabet(env: &Env) -> Vec<Op> {
+    let n = env.imgs.len();
+    let mut ops = vec![];
+    for i in 0..n {
+        for p in 0..POSITIONS.len() {
+            ops.push(Op::Draw(i, p));
+        }
+    }
+    for i in 0..n {
+        for p in 0..POSITIONS.len() {
+            ops.push(Op::EraseAt(i, p));
+        }
+        ops.push(Op::EraseAll(i));
+    }
+    // error responses: every (image id, placement) the handler can have produced
+    for i in 0..n {
+        ops.push(Op::Resp { id: IdRef::Img(i), pl: PlRef::Absent, error: true });
+        for p in 0..POSITIONS.len() {
+            ops.push(Op::Resp { id: IdRef::Img(i), pl: PlRef::Pos(p), error: true });
+        }
+    }
+    // ... and ids / placements it cannot know
+    ops.push(Op::Resp { id: IdRef::Unknown, pl: PlRef::Pos(1), error: true });
+    ops.push(Op::Resp { id: IdRef::Unknown, pl: PlRef::Absent, error: true });
+    ops.push(Op::Resp { id: IdRef::Img(1), pl: PlRef::Unknown, error: true });
+    // OK responses (no state change expected): a known pair, a known id, unknown ones
+    ops.push(Op::Resp { id: IdRef::Img(0), pl: PlRef::Pos(1), error: false });
+    ops.push(Op::Resp { id: IdRef::Img(1), pl: PlRef::Pos(0), error: false });
+    ops.push(Op::Resp { id: IdRef::Img(6), pl: PlRef::Absent, error: false });
+    ops.push(Op::Resp { id: IdRef::Unknown, pl: PlRef::Unknown, error: false });
+    ops.push(Op::Other);
+    ops
+}
+
+// --------------------------------------------------------------------------------------------
+// one world: real handler + reference terminal + bookkeeping of the statement's quantities
+// --------------------------------------------------------------------------------------------
+
+#[derive(Debug, Clone)]
+struct Finding {
+    key: String,
+    what: String,
+}
+
+struct World {
+    handler: KittyImageHandler,
+    quiet: bool,
+    term: KittyTerm,
+    /// contents transmitted and not evicted by an error response since
+    cached: BTreeSet<usize>,
+    /// placement serial -> (content, cell) of the draw that created it
+    tags: BTreeMap<u64, (usize, (u32, u32))>,
+    /// q value seen on a plain draw that differs from the configured one
+    q_deviation: bool,
+    /// (op kind, event kinds) signature of the last op
+    last_sig: u64,
+    last_bytes: Vec<u8>,
+    last_events: Vec<String>,
+}
+
+fn fmt_chunks(ch: &[Chunk]) -> String {
+    ch.iter().map(|c| format!("{}(m={})", c.len, c.more)).collect::<Vec<_>>().join(" ")
+}
+
+impl World {
+    fn new(quiet: bool) -> Self {
+        let handler = if quiet { KittyImageHandler::new().quiet() } else { KittyImageHandler::new() };
+        World {
+            handler,
+            quiet,
+            term: KittyTerm::new(),
+            cached: BTreeSet::new(),
+            tags: BTreeMap::new(),
+            q_deviation: false,
+            last_sig: 0,
+            last_bytes: vec![],
+            last_events: vec![],
+        }
+    }
+
+    fn state_key(&self) -> u128 {
+        let mut pl: Vec<(u32, u32, (u32, u32), Option<(usize, (u32, u32))>)> = self
+            .term
+            .placements
+            .iter()
+            .map(|p| (p.image, p.pid, p.at, self.tags.get(&p.serial).copied()))
+            .collect();
+        pl.sort();
+        let imgs: Vec<u32> = self.term.images.keys().copied().collect();
+        hash128(&(self.quiet, &self.cached, imgs, pl))
+    }
+
+    /// Execute one operation on the real handler, feed its output to the reference terminal
+    /// and evaluate the statement. Returns the findings of this operation.
+    fn apply(&mut self, env: &Env, op: &Op) -> Vec<Finding> {
+        let mut f: Vec<Finding> = vec![];
+        let mut add = |key: String, what: String| f.push(Finding { key, what });
+        let mut out: Vec<u8> = Vec::new();
+        self.last_events.clear();
+
+        // ---- run the real code
+        let (row, col) = match op {
+            Op::Draw(_, p) | Op::EraseAt(_, p) => POSITIONS[*p],
+            _ => (7, 7),
+        };
+        // contract of ImageHandler::draw: `pos` is the current cursor position
+        self.term.cursor = (row as u32, col as u32);
+        let event = match op {
+            Op::Resp { id, pl, error } => {
+                let idv = match id {
+                    IdRef::Img(i) => match env.id_of[*i] {
+                        Some(v) => v,
+                        None => return vec![Finding { key: "disabled".into(), what: "id not learned".into() }],
+                    },
+                    IdRef::Unknown => env.unknown_id,
+                };
+                let plv = match pl {
+                    PlRef::Absent => None,
+                    PlRef::Pos(p) => match env.pid_of[*p] {
+                        Some(v) => Some(v),
+                        None => return vec![Finding { key: "disabled".into(), what: "placement id not learned".into() }],
+                    },
+                    PlRef::Unknown => Some(env.unknown_pid),
+                };
+                Some(TerminalEvent::KittyImage {
+                    id: idv,
+                    placement: plv,
+                    error: if *error { Some("ENOENT:Put command refers to non-existent image".to_string()) } else { None },
+                })
+            }
+            Op::Other => Some(TerminalEvent::KeyboardLevel(1)),
+            _ => None,
+        };
+        let handler = &mut self.handler;
+        let res = catch(|| match op {
+            Op::Draw(i, _) => handler.draw(&mut out, &env.imgs[*i].image, Position::new(row, col)).map(|_| false),
+            Op::EraseAt(i, _) => handler.erase(&mut out, &env.imgs[*i].image, Some(Position::new(row, col))).map(|_| false),
+            Op::EraseAll(i) => handler.erase(&mut out, &env.imgs[*i].image, None).map(|_| false),
+            Op::Resp { .. } | Op::Other => handler.handle(&mut out, event.as_ref().unwrap()),
+        });
+        self.last_bytes = out.clone();
+        match res {
+            Err(p) => {
+                add(format!("{}:{}", op_kind(op), p.key()), format!("panicked: {} ({}:{})", p.message, p.file, p.line));
+                return f;
+            }
+            Ok(Err(e)) => {
+                add(format!("{}:error-result", op_kind(op)), format!("returned Err({e:?}) while writing to a Vec"));
+                return f;
+            }
+            Ok(Ok(_)) => {}
+        }
+
+        // ---- the model's view of an error response: the content is evicted
+        let mut subject: Option<usize> = match op {
+            Op::Draw(i, _) | Op::EraseAt(i, _) | Op::EraseAll(i) => Some(*i),
+            Op::Resp { id: IdRef::Img(i), .. } => Some(*i),
+            _ => None,
+        };
+        if let Op::Resp { id: IdRef::Img(i), error: true, .. } = op {
+            self.cached.remove(&env.imgs[*i].content);
+        }
+        if let Op::Resp { error: false, .. } = op {
+            subject = None;
+        }
+
+        // ---- parse
+        let toks = match tokenize(&out) {
+            Ok(t) => t,
+            Err(e) => {
+                add(format!("{}:malformed-stream", op_kind(op)), format!("output is not a sequence of escape sequences: {e}; bytes {}", esc(&out[..out.len().min(120)])));
+                return f;
+            }
+        };
+        let expected_q: u32 = if self.quiet { 1 } else { 0 };
+        let mut puts = 0usize;
+        let mut deletes = 0usize;
+        let mut kinds: Vec<u8> = vec![];
+        for tok in &toks {
+            let body = match tok {
+                Tok::Apc(b) => b,
+                other => {
+                    kinds.push(b'c');
+                    if let Err(e) = self.term.control(other) {
+                        add(format!("{}:unexpected-escape", op_kind(op)), e);
+                    }
+                    if matches!(op, Op::Draw(..) | Op::EraseAt(..) | Op::EraseAll(..)) {
+                        add(format!("{}:unexpected-escape", op_kind(op)), format!("{:?} emitted by a plain draw/erase", other));
+                    }
+                    continue;
+                }
+            };
+            let cmd: Cmd = match parse_graphics(body) {
+                Ok(c) => c,
+                Err(e) => {
+                    add(format!("{}:malformed-command", op_kind(op)), format!("{e}; APC body {}", esc(&body[..body.len().min(100)])));
+                    continue;
+                }
+            };
+            if matches!(op, Op::Draw(..)) {
+                if cmd.uint(b'q').unwrap_or(0) != expected_q {
+                    self.q_deviation = true;
+                }
+            }
+            let was_open = self.term.transmission_open();
+            let outcome = self.term.exec(&cmd);
+            self.last_events.push(format!("{} -> {}", cmd.describe(), describe_outcome(&outcome)));
+            match outcome {
+                Outcome::ChunkPending => kinds.push(b'k'),
+                Outcome::Rejected { code, text } => {
+                    kinds.push(b'r');
+                    let class = if text.contains("never transmitted") {
+                        "put-untransmitted-image".to_string()
+                    } else if was_open {
+                        "bad-chunked-transmission".to_string()
+                    } else {
+                        code.to_string()
+                    };
+                    add(
+                        format!("{}:terminal-rejects:{}", op_kind(op), class),
+                        format!("reference terminal rejects `{}`: {code}: {text}", cmd.describe()),
+                    );
+                }
+                Outcome::Transmitted { id, width, height, format, chunks, bytes } => {
+                    kinds.push(b't');
+                    // chunk rules of the statement
+                    for (n, c) in chunks.iter().enumerate() {
+                        if c.len > 4096 {
+                            add(format!("{}:chunk:longer-than-4096", op_kind(op)), format!("chunk {n} has {} bytes; chunks {}", c.len, fmt_chunks(&chunks)));
+                        }
+                        if c.len % 4 != 0 {
+                            add(format!("{}:chunk:not-multiple-of-4", op_kind(op)), format!("chunk {n} has {} bytes; chunks {}", c.len, fmt_chunks(&chunks)));
+                        }
+                        if !c.extra_keys.is_empty() {
+                            add(
+                                format!("{}:chunk:continuation-carries-keys", op_kind(op)),
+                                format!("chunk {n} carries keys {:?} (only m and q are allowed; a command sent during a chunked transmission is swallowed as data)", String::from_utf8_lossy(&c.extra_keys)),
+                            );
+                        }
+                    }
+                    if format != 32 {
+                        add(format!("{}:transmit:format", op_kind(op)), format!("f={format}, expected 32 (RGBA)"));
+                    }
+                    // which content is it?
+                    let data = &self.term.images[&id].data;
+                    let matches_img = |im: &Img| im.w as u32 == width && im.h as u32 == height && format == 32 && flat(&im.px) == *data;
+                    match subject {
+                        Some(i) => {
+                            let im = &env.imgs[i];
+                            if (width, height) != (im.w as u32, im.h as u32) {
+                                add(
+                                    format!("{}:transmit:size", op_kind(op)),
+                                    format!("declared s={width},v={height} but image {} is {} wide, {} high", im.name, im.w, im.h),
+                                );
+                            } else if !matches_img(im) {
+                                let exp = flat(&im.px);
+                                let at = exp.iter().zip(data.iter()).position(|(a, b)| a != b).unwrap_or(0);
+                                add(
+                                    format!("{}:transmit:pixels", op_kind(op)),
+                                    format!("decoded payload ({bytes} bytes) differs from the RGBA pixels of {} at byte {at}: expected {:?}.. got {:?}..", im.name, &exp[at..(at + 8).min(exp.len())], &data[at..(at + 8).min(data.len())]),
+                                );
+                            }
+                            if let Some(eid) = env.id_of[i] {
+                                if eid != id as u64 {
+                                    add(format!("{}:id-unstable", op_kind(op)), format!("image {} transmitted as i={id}, other handlers use i={eid}", im.name));
+                                }
+                            }
+                            if self.cached.contains(&im.content) {
+                                add(
+                                    format!("{}:transmit:repeated", op_kind(op)),
+                                    format!("pixel data of {} transmitted again although it was transmitted before and not evicted by an error response", im.name),
+                                );
+                            }
+                            self.cached.insert(im.content);
+                        }
+                        None => match env.imgs.iter().find(|im| matches_img(im)) {
+                            Some(im) => {
+                                if self.cached.contains(&im.content) {
+                                    add(format!("{}:transmit:repeated", op_kind(op)), format!("pixel data of {} transmitted again", im.name));
+                                }
+                                self.cached.insert(im.content);
+                            }
+                            None => add(format!("{}:transmit:unknown-content", op_kind(op)), format!("transmission i={id} {width}x{height} is none of the images")),
+                        },
+                    }
+                }
+                Outcome::Put { id, pid, serial, at, .. } => {
+                    kinds.push(b'p');
+                    puts += 1;
+                    let stored = &self.term.images[&id];
+                    let content = env
+                        .imgs
+                        .iter()
+                        .find(|im| im.w as u32 == stored.width && im.h as u32 == stored.height && flat(&im.px) == stored.data)
+                        .map(|im| im.content);
+                    if let Some(c) = content {
+                        self.tags.insert(serial, (c, at));
+                    }
+                    if let Some(i) = subject {
+                        let im = &env.imgs[i];
+                        if content != Some(im.content) {
+                            add(
+                                format!("{}:put:wrong-image", op_kind(op)),
+                                format!("placement names i={id} whose stored pixels are not those of {}", im.name),
+                            );
+                        }
+                    }
+                    if pid == 0 {
+                        add(
+                            format!("{}:put:p0-unspecified@{},{}", op_kind(op), at.0, at.1),
+                            format!("placement at cell ({},{}) is created with p=0, which the protocol defines as 'unspecified': it gets no identity, a repeated put adds another placement and it cannot be addressed by a delete", at.0, at.1),
+                        );
+                    }
+                    // the placement id must be the one every handler uses for this cell
+                    if let Some(pp) = POSITIONS.iter().position(|p| (p.0 as u32, p.1 as u32) == at) {
+                        if let Some(epid) = env.pid_of[pp] {
+                            if epid != pid as u64 {
+                                add(
+                                    format!("{}:put:placement-id-for-cell", op_kind(op)),
+                                    format!("image placed at cell ({},{}) with p={pid}; a draw at that cell uses p={epid}", at.0, at.1),
+                                );
+                            }
+                        }
+                    }
+                    if let Op::Resp { pl, .. } = op {
+                        // re-draw after an error: same placement, same cell as the original draw
+                        let want_pid = match pl {
+                            PlRef::Pos(p) => env.pid_of[*p],
+                            PlRef::Unknown => Some(env.unknown_pid),
+                            PlRef::Absent => None,
+                        };
+                        if want_pid.is_some() && want_pid != Some(pid as u64) {
+                            add(format!("{}:put:other-placement", op_kind(op)), format!("error response named p={:?}, re-draw used p={pid}", want_pid));
+                        }
+                        if let PlRef::Pos(p) = pl {
+                            let cell = (POSITIONS[*p].0 as u32, POSITIONS[*p].1 as u32);
+                            if cell != at {
+                                add(
+                                    format!("{}:put:wrong-cell", op_kind(op)),
+                                    format!("placement p={pid} was created by a draw at cell {:?} but the re-draw moves the cursor to {:?}", cell, at),
+                                );
+                            }
+                        }
+                    }
+                }
+                Outcome::Deleted { id, pid, removed, .. } => {
+                    kinds.push(b'd');
+                    deletes += 1;
+                    match op {
+                        Op::EraseAt(i, p) => {
+                            let im = &env.imgs[*i];
+                            let cell = (POSITIONS[*p].0 as u32, POSITIONS[*p].1 as u32);
+                            if let Some(eid) = env.id_of[*i] {
+                                if eid != id as u64 {
+                                    add("erase:image-id".into(), format!("erase of {} names i={id}, draw uses i={eid}", im.name));
+                                }
+                            }
+                            if pid == 0 {
+                                add(
+                                    format!("erase:p0-unspecified@{},{}", cell.0, cell.1),
+                                    format!("erase at cell ({},{}) sends p=0 (or no p): the protocol reads that as 'unspecified' and deletes every placement of the image", cell.0, cell.1),
+                                );
+                            } else if let Some(epid) = env.pid_of[*p] {
+                                if epid != pid as u64 {
+                                    add("erase:placement-id-differs-from-draw".into(), format!("erase at cell {:?} names p={pid}, draw at that cell creates p={epid}", cell));
+                                }
+                            }
+                            let others: Vec<_> = removed.iter().filter(|pl| self.tags.get(&pl.serial) != Some(&(im.content, cell))).collect();
+                            if !others.is_empty() {
+                                let o = others[0];
+                                add(
+                                    format!("erase:removes-other-placements@{},{}", cell.0, cell.1),
+                                    format!(
+                                        "erase({}, {:?}) removed {} placement(s) that were not created by draw({}, {:?}), e.g. the one at cell {:?} (p={})",
+                                        im.name, cell, others.len(), im.name, cell, o.at, o.pid
+                                    ),
+                                );
+                            }
+                        }
+                        Op::EraseAll(i) => {
+                            let im = &env.imgs[*i];
+                            if let Some(eid) = env.id_of[*i] {
+                                if eid != id as u64 {
+                                    add("erase:image-id".into(), format!("erase of {} names i={id}, draw uses i={eid}", im.name));
+                                }
+                            }
+                            if pid != 0 {
+                                add("erase:all-names-a-placement".into(), format!("erase({}, None) names p={pid}", im.name));
+                            }
+                            if removed.iter().any(|pl| self.tags.get(&pl.serial).map(|t| t.0) != Some(im.content)) {
+                                add("erase:removes-other-image".into(), format!("erase({}, None) removed placements of another image", im.name));
+                            }
+                        }
+                        _ => add(format!("{}:unexpected-delete", op_kind(op)), format!("delete i={id} p={pid} emitted")),
+                    }
+                    for pl in &removed {
+                        self.tags.remove(&pl.serial);
+                    }
+                }
+            }
+        }
+
+        // ---- after the operation
+        if self.term.transmission_open() {
+            add(
+                format!("{}:chunk:transmission-left-open", op_kind(op)),
+                "the last chunk carried m=1: the terminal keeps waiting for data and will swallow the next graphics command".into(),
+            );
+        }
+        match op {
+            Op::Draw(i, p) => {
+                let im = &env.imgs[*i];
+                let cell = (POSITIONS[*p].0 as u32, POSITIONS[*p].1 as u32);
+                if !im.px.is_empty() {
+                    let n = self.term.placements.iter().filter(|pl| self.tags.get(&pl.serial) == Some(&(im.content, cell))).count();
+                    if n == 0 {
+                        add("draw:no-placement".into(), format!("after draw({}, {:?}) the terminal shows no placement of it at that cell", im.name, cell));
+                    }
+                    if puts > 1 {
+                        add("draw:several-puts".into(), format!("{puts} put commands for one draw"));
+                    }
+                }
+            }
+            Op::EraseAt(i, p) => {
+                let im = &env.imgs[*i];
+                let cell = (POSITIONS[*p].0 as u32, POSITIONS[*p].1 as u32);
+                if deletes != 1 {
+                    add("erase:delete-commands".into(), format!("{deletes} delete commands for one erase"));
+                }
+                if self.term.placements.iter().any(|pl| self.tags.get(&pl.serial) == Some(&(im.content, cell))) {
+                    add("erase:leaves-placement".into(), format!("after erase({}, {:?}) the placement created by draw({}, {:?}) is still there", im.name, cell, im.name, cell));
+                }
+            }
+            Op::EraseAll(i) => {
+                let im = &env.imgs[*i];
+                if deletes != 1 {
+                    add("erase:delete-commands".into(), format!("{deletes} delete commands for one erase"));
+                }
+                if self.term.placements.iter().any(|pl| self.tags.get(&pl.serial).map(|t| t.0) == Some(im.content)) {
+                    add("erase:leaves-placement".into(), format!("after erase({}, None) a placement of it is still there", im.name));
+                }
+            }
+            _ => {}
+        }
+        self.last_sig = hash64(&(op_kind(op), kinds));
+        f
+    }
+}
+
+fn flat(px: &[[u8; 4]]) -> Vec<u8> {
+    px.iter().flat_map(|p| p.iter().copied()).collect()
+}
+
+fn op_kind(op: &Op) -> &'static str {
+    match op {
+        Op::Draw(..) => "draw",
+        Op::EraseAt(..) | Op::EraseAll(..) => "erase",
+        Op::Resp { error: true, .. } => "error-response",
+        Op::Resp { error: false, .. } => "ok-response",
+        Op::Other => "other-event",
+    }
+}
+
+fn describe_outcome(o: &Outcome) -> String {
+    match o {
+        Outcome::ChunkPending => "chunk accepted, more to come".into(),
+        Outcome::Transmitted { id, width, height, chunks, bytes, .. } => {
+            format!("image {id} stored: {width}x{height}, {bytes} bytes, chunks {}", fmt_chunks(chunks))
+        }
+        Outcome::Put { id, pid, replaced, at, .. } => format!("placement (i={id}, p={pid}) at cell {:?}{}", at, if *replaced { " (replaces the previous one)" } else { "" }),
+        Outcome::Deleted { id, pid, removed, .. } => format!(
+            "delete i={id} p={pid} removed {} placement(s) {:?}",
+            removed.len(),
+            removed.iter().map(|p| (p.pid, p.at)).collect::<Vec<_>>()
+        ),
+        Outcome::Rejected { code, text } => format!("REJECTED {code}: {text}"),
+    }
+}
+
+// --------------------------------------------------------------------------------------------
+// probe: learn image ids and placement ids from the handler's own output
+// --------------------------------------------------------------------------------------------
+
+fn first_cmd(bytes: &[u8], action: u8) -> Option<Cmd> {
+    let toks = tokenize(bytes).ok()?;
+    for t in toks {
+        if let Tok::Apc(b) = t {
+            if let Ok(c) = parse_graphics(&b) {
+                if c.ch(b'a') == Some(action) {
+                    return Some(c);
+                }
+            }
+        }
+    }
+    None
+}
+
+fn probe(imgs: Vec<Img>, viol: &Violations) -> Env {
+    let mut env = Env { id_of: vec![None; imgs.len()], pid_of: vec![None; POSITIONS.len()], imgs, ..Default::default() };
+    let w = |what: &str, i: usize, p: usize| json!({"sub": "probe", "what": what, "img": env_name(i), "pos": [POSITIONS[p].0, POSITIONS[p].1]});
+    fn env_name(i: usize) -> String {
+        ["A", "B", "C", "D", "E", "F", "G"][i].to_string()
+    }
+    for (i, im) in env.imgs.iter().enumerate() {
+        for (p, pos) in POSITIONS.iter().enumerate() {
+            // ids as used by erase (works for the empty image too) and by draw
+            let mut ids: Vec<u64> = vec![];
+            let mut pids: Vec<u64> = vec![];
+            let _ = catch(|| {
+                let mut h = KittyImageHandler::new();
+                let mut out = vec![];
+                let _ = h.erase(&mut out, &im.image, Some(Position::new(pos.0, pos.1)));
+                if let Some(c) = first_cmd(&out, b'd') {
+                    ids.extend(c.uint(b'i').map(|v| v as u64));
+                }
+                let mut out = vec![];
+                let _ = h.draw(&mut out, &im.image, Position::new(pos.0, pos.1));
+                if let Some(c) = first_cmd(&out, b'p') {
+                    ids.extend(c.uint(b'i').map(|v| v as u64));
+                    pids.push(c.uint(b'p').unwrap_or(0) as u64);
+                }
+            });
+            for id in ids {
+                match env.id_of[i] {
+                    None => env.id_of[i] = Some(id),
+                    Some(old) if old != id => viol.add("probe:image-id-not-a-function-of-content", format!("image {} is named i={old} and i={id}", im.name), w("id", i, p)),
+                    _ => {}
+                }
+            }
+            for pid in pids {
+                match env.pid_of[p] {
+                    None => env.pid_of[p] = Some(pid),
+                    Some(old) if old != pid => viol.add("probe:placement-id-not-a-function-of-position", format!("cell {:?} gets p={old} and p={pid}", pos), w("pid", i, p)),
+                    _ => {}
+                }
+            }
+        }
+    }
+    // distinct contents -> distinct ids; equal contents -> equal ids; distinct cells -> distinct p
+    for i in 0..env.imgs.len() {
+        for j in 0..i {
+            if let (Some(a), Some(b)) = (env.id_of[i], env.id_of[j]) {
+                let same = env.imgs[i].content == env.imgs[j].content;
+                if same != (a == b) {
+                    viol.add(
+                        if same { "probe:equal-content-different-id" } else { "probe:different-content-same-id" },
+                        format!("{} (i={a}) vs {} (i={b})", env.imgs[i].name, env.imgs[j].name),
+                        w("id-pair", i, 0),
+                    );
+                }
+            }
+        }
+    }
+    for p in 0..POSITIONS.len() {
+        for q in 0..p {
+            if let (Some(a), Some(b)) = (env.pid_of[p], env.pid_of[q]) {
+                if a == b {
+                    viol.add("probe:distinct-cells-same-placement-id", format!("cells {:?} and {:?} both get p={a}", POSITIONS[p], POSITIONS[q]), w("pid-pair", 0, p));
+                }
+            }
+        }
+    }
+    let used: HashSet<u64> = env.id_of.iter().flatten().copied().collect();
+    env.unknown_id = (1000u64..).find(|v| !used.contains(v)).unwrap();
+    let usedp: HashSet<u64> = env.pid_of.iter().flatten().copied().collect();
+    env.unknown_pid = (77u64 + 5 * 65536..).find(|v| !usedp.contains(v)).unwrap();
+    env
+}
+
+// --------------------------------------------------------------------------------------------
+// history exploration
+// --------------------------------------------------------------------------------------------
+
+struct Counters {
+    ops_run: AtomicU64,
+    histories: AtomicU64,
+    outcomes: std::sync::RwLock<HashSet<u64>>,
+    q_deviation: AtomicBool,
+    transmissions: AtomicU64,
+}
+
+fn run_history(env: &Env, quiet: bool, hist: &[Op]) -> (World, Vec<Finding>, bool) {
+    let mut w = World::new(quiet);
+    let mut last = vec![];
+    let mut prefix_bad = false;
+    for (n, op) in hist.iter().enumerate() {
+        let f = w.apply(env, op);
+        if n + 1 == hist.len() {
+            last = f;
+        } else if f.iter().any(|f| !(f.key.contains(":p0-unspecified@") || f.key.contains(":removes-other-placements@"))) {
+            prefix_bad = true;
+        }
+    }
+    (w, last, prefix_bad)
+}
+
+fn history_witness(env: &Env, quiet: bool, hist: &[Op]) -> Value {
+    json!({"sub": "history", "quiet": quiet, "ops": hist.iter().map(|o| env.op_json(o)).collect::<Vec<_>>()})
+}
+
+fn explore(ctx: &Ctx, env: &Env, ops: &[Op], quiet: bool, depth: usize, dedup: bool, viol: &Violations, samples: &Samples, cnt: &Counters) -> bfs::BfsStats {
+    bfs::bfs(ctx, ops, depth, |hist: &[Op]| {
+        let (w, findings, prefix_bad) = run_history(env, quiet, hist);
+        cnt.histories.fetch_add(1, Ordering::Relaxed);
+        cnt.ops_run.fetch_add(hist.len() as u64, Ordering::Relaxed);
+        if w.q_deviation {
+            cnt.q_deviation.store(true, Ordering::Relaxed);
+        }
+        if findings.iter().any(|f| f.key == "disabled") || prefix_bad {
+            return None;
+        }
+        let _ = samples;
+        if !hist.is_empty() {
+            let seen = cnt.outcomes.read().unwrap().contains(&w.last_sig);
+            if !seen {
+                cnt.outcomes.write().unwrap().insert(w.last_sig);
+            }
+        }
+        if !findings.is_empty() {
+            for f in &findings {
+                viol.add(f.key.clone(), format!("{} [history of {} op(s), last: {}]", f.what, hist.len(), env.op_json(hist.last().unwrap())), history_witness(env, quiet, hist));
+            }
+            // The reference terminal gives p=0 a well-defined meaning, so histories through a
+            // cell whose placement id is 0 stay explorable; every other finding ends the branch.
+            if findings.iter().any(|f| !(f.key.contains(":p0-unspecified@") || f.key.contains(":removes-other-placements@"))) {
+                return None;
+            }
+        }
+        Some(if dedup { w.state_key() } else { hash128(&(quiet, hist)) })
+    })
+}
+
+// --------------------------------------------------------------------------------------------
+// payload spaces: one image, fixed mini-history
+// --------------------------------------------------------------------------------------------
+
+const MINI: [Op; 6] = [Op::Draw(0, 1), Op::Draw(0, 1), Op::Draw(0, 2), Op::EraseAt(0, 1), Op::Draw(0, 3), Op::EraseAll(0)];
+
+fn payload_case(h: usize, w: usize, px: Vec<[u8; 4]>) -> (Env, Vec<(usize, Finding)>, u64) {
+    let mut imgs = vec![Img { name: "X".into(), h, w, image: owned(h, w, &px), px, content: 0 }];
+    assign_contents(&mut imgs);
+    let env = Env { id_of: vec![None], pid_of: vec![None; POSITIONS.len()], imgs, unknown_id: 1, unknown_pid: 1 };
+    let mut world = World::new(false);
+    let mut out = vec![];
+    let mut sig = 0u64;
+    for (n, op) in MINI.iter().enumerate() {
+        for f in world.apply(&env, op) {
+            // the position-related findings belong to the history space
+            if !f.key.contains("p0-unspecified") {
+                out.push((n, f));
+            }
+        }
+        sig = hash64(&(sig, world.last_sig));
+    }
+    (env, out, sig)
+}
+
+fn size_lattice(tier: Tier) -> Vec<(usize, usize)> {
+    let mut v = vec![];
+    // every pixel count around the chunk boundaries (768 px = one full chunk)
+    let max_n = tier.pick(1600, 4700);
+    for n in 1..=max_n {
+        v.push((1, n));
+    }
+    for n in 2..=tier.pick(800, 1600) {
+        v.push((n, 1));
+    }
+    for h in 2..=tier.pick(24, 48) {
+        for w in 2..=tier.pick(40, 70) {
+            v.push((h, w));
+        }
+    }
+    v
+}
+
+fn size_px(h: usize, w: usize) -> Vec<[u8; 4]> {
+    (0..h * w).map(|i| pixel(i + h * 3 + w)).collect()
+}
+
+pub fn run(ctx: &Ctx) -> Result<Report, String> {
+    let viol = Violations::new();
+    let samples = Samples::new(ctx.seed);
+    let cnt = Counters {
+        ops_run: AtomicU64::new(0),
+        histories: AtomicU64::new(0),
+        outcomes: std::sync::RwLock::new(HashSet::new()),
+        q_deviation: AtomicBool::new(false),
+        transmissions: AtomicU64::new(0),
+    };
+    let env = probe(history_images(), &viol);
+    let ops = alphabet(&env);
+
+    // ---- histories
+    let mut r = Report::new("model_checking");
+    let mut states = 0u64;
+    let mut transitions = 0u64;
+    let mut capped = false;
+    let mut parts = vec![];
+    let mut plan: Vec<(bool, usize, bool)> = vec![(false, 3, false), (true, 2, false), (false, 4, true)];
+    if ctx.tier == Tier::Thorough {
+        plan.push((true, 3, false));
+        plan.push((false, 6, true));
+        plan.push((true, 5, true));
+    }
+    for (quiet, depth, dedup) in plan {
+        let st = explore(ctx, &env, &ops, quiet, depth, dedup, &viol, &samples, &cnt);
+        states += st.states;
+        transitions += st.transitions;
+        capped |= st.capped;
+        parts.push(json!({
+            "handler": if quiet { "KittyImageHandler::new().quiet()" } else { "KittyImageHandler::new()" },
+            "depth": depth, "deduplicated": dedup, "states": st.states, "transitions": st.transitions,
+            "levels": st.levels, "pruned": st.pruned, "depth_completed": st.max_depth, "capped": st.capped,
+        }));
+    }
+
+    // ---- a few complete histories for the evidence file (seed only rotates which ones)
+    for k in 0..6u64 {
+        let pick = |m: u64, a: u64| ops[((ctx.seed.wrapping_add(k * m).wrapping_add(a)) % ops.len() as u64) as usize];
+        let hist = [pick(37, 1), pick(53, 2), pick(71, 0)];
+        let mut w = World::new(k % 2 == 1);
+        let mut steps = vec![];
+        for op in &hist {
+            let f = w.apply(&env, op);
+            steps.push(json!({
+                "op": env.op_json(op),
+                "bytes": esc(&w.last_bytes[..w.last_bytes.len().min(120)]),
+                "terminal": w.last_events,
+                "findings": f.iter().map(|x| x.key.clone()).collect::<Vec<_>>(),
+            }));
+        }
+        samples.force(json!({"quiet": k % 2 == 1, "steps": steps,
+            "placements_after": w.term.placements.iter().map(|p| json!([p.image, p.pid, [p.at.0, p.at.1]])).collect::<Vec<_>>()}));
+    }
+
+    // ---- single-pixel images over every value of each channel
+    let base = [0x12u8, 0x34, 0x56, 0x78];
+    let pixel_cases: Vec<[u8; 4]> = (0..4usize)
+        .flat_map(|ch| {
+            (0..=255u8).map(move |v| {
+                let mut p = base;
+                p[ch] = v;
+                p
+            })
+        })
+        .collect();
+    let pixel_sigs: HashSet<u64> = pixel_cases
+        .par_iter()
+        .map(|p| {
+            let (_, findings, sig) = payload_case(1, 1, vec![*p]);
+            for (n, f) in findings {
+                viol.add(f.key.clone(), format!("{} [single pixel {:?}, step {n}]", f.what, p), json!({"sub": "pixel", "rgba": p}));
+            }
+            sig
+        })
+        .collect();
+
+    // ---- size lattice
+    let sizes = size_lattice(ctx.tier);
+    let size_sigs: HashSet<u64> = sizes
+        .par_iter()
+        .map(|(h, w)| {
+            let (_, findings, sig) = payload_case(*h, *w, size_px(*h, *w));
+            for (n, f) in findings {
+                viol.add(f.key.clone(), format!("{} [image {}x{} (h x w), step {n}]", f.what, h, w), json!({"sub": "size", "h": h, "w": w}));
+            }
+            samples.offer(hash64(&(h, w)), || json!({"size_case": [h, w], "base64_bytes": (h * w * 4).div_ceil(3) * 4}));
+            sig
+        })
+        .collect();
+    let extra_hist = (pixel_cases.len() + sizes.len()) as u64;
+    let extra_ops = extra_hist * MINI.len() as u64;
+
+    r.set("states", states)
+        .set("transitions", transitions)
+        .set("traces_validated_against_impl", cnt.histories.load(Ordering::Relaxed) + extra_hist)
+        .set("operations_executed_on_real_handler", cnt.ops_run.load(Ordering::Relaxed) + extra_ops)
+        .set("samples", samples.into_vec())
+        .set("exhaustive", !capped)
+        .set("capped", capped)
+        .set("alphabet_size", ops.len())
+        .set("alphabet", "28 draws (7 images x 4 cells), 28 erase(Some), 7 erase(None), 35 error responses (image x {no placement, 4 cells}), 3 error responses with unknown id / placement, 4 OK responses, 1 unrelated event")
+        .set("images", env.imgs.iter().map(|i| json!({"name": i.name, "h": i.h, "w": i.w, "content_class": i.content})).collect::<Vec<_>>())
+        .set("learned_image_ids", env.imgs.iter().zip(&env.id_of).map(|(i, id)| json!([i.name, id])).collect::<Vec<_>>())
+        .set("learned_placement_ids", POSITIONS.iter().zip(&env.pid_of).map(|(p, id)| json!([[p.0, p.1], id])).collect::<Vec<_>>())
+        .set("history_spaces", parts)
+        .set("distinct_op_outcomes", cnt.outcomes.read().unwrap().len())
+        .set("single_pixel_images", pixel_cases.len())
+        .set("single_pixel_distinct_outcomes", pixel_sigs.len())
+        .set("size_lattice_images", sizes.len())
+        .set("size_lattice_distinct_outcomes", size_sigs.len())
+        .set("mini_history_for_payload_spaces", "draw@(0,1), draw@(0,1), draw@(1,0), erase@(0,1), draw@(65535,65535), erase(None)")
+        .set("suppress_restored_in_all_histories", !cnt.q_deviation.load(Ordering::Relaxed))
+        .set("raw_violations", viol.raw_count());
+    if cnt.q_deviation.load(Ordering::Relaxed) {
+        r.set("exhaustive", false);
+        r.set("dedup_note", "a plain draw carried a q value different from the configured one: `suppress` is hidden state, the depth-4 deduplication key is not sound");
+    }
+    r.assume("kitty graphics protocol as documented (control keys, chunking rules, p=0 / i=0 mean 'unspecified', delete d=i with and without p)");
+    r.assume("re-transmitting an id keeps the placements of that id in the reference terminal (the statement does not depend on it)");
+    r.assume("the handler's only state is `imgs` and `suppress`; the deduplication key (transmitted contents, terminal images, placements with their creating draw) determines both as long as `suppress` is restored (monitored: suppress_restored_in_all_histories)");
+    r.assume("image ids are content hashes: id collisions between different contents (and the id value 0) cannot be reached by enumeration and are not covered");
+    r.violations = viol.into_vec();
+    Ok(r)
+}
+
+pub fn replay(w: &Value) -> Result<(bool, String), String> {
+    let mut text = String::new();
+    let mut bad = false;
+    let show = |world: &World, env: &Env, n: usize, op: &Op, f: &[Finding], text: &mut String| {
+        text.push_str(&format!("step {n}: {}\n", env.op_json(op)));
+        text.push_str(&format!("  bytes: {}\n", esc(&world.last_bytes[..world.last_bytes.len().min(200)])));
+        for e in &world.last_events {
+            text.push_str(&format!("  terminal: {e}\n"));
+        }
+        text.push_str(&format!(
+            "  placements now: {:?}\n",
+            world.term.placements.iter().map(|p| (p.image, p.pid, p.at)).collect::<Vec<_>>()
+        ));
+        for x in f {
+            text.push_str(&format!("  VIOLATION [{}]: {}\n", x.key, x.what));
+        }
+    };
+    match w["sub"].as_str().ok_or("sub")? {
+        "history" => {
+            let dummy = Violations::new();
+            let env = probe(history_images(), &dummy);
+            let quiet = w["quiet"].as_bool().unwrap_or(false);
+            let ops: Vec<Op> = w["ops"].as_array().ok_or("ops")?.iter().map(|o| env.op_from_json(o)).collect::<Result<_, _>>()?;
+            let mut world = World::new(quiet);
+            for (n, op) in ops.iter().enumerate() {
+                let f = world.apply(&env, op);
+                bad |= !f.is_empty();
+                show(&world, &env, n, op, &f, &mut text);
+            }
+        }
+        "probe" => {
+            let v = Violations::new();
+            let _ = probe(history_images(), &v);
+            for x in v.into_vec() {
+                bad = true;
+                text.push_str(&format!("VIOLATION [{}]: {}\n", x.key, x.what));
+            }
+        }
+        sub @ ("pixel" | "size") => {
+            let (h, wd, px) = if sub == "pixel" {
+                let p: Vec<u8> = w["rgba"].as_array().ok_or("rgba")?.iter().map(|v| v.as_u64().unwrap_or(0) as u8).collect();
+                (1, 1, vec![[p[0], p[1], p[2], p[3]]])
+            } else {
+                let h = w["h"].as_u64().ok_or("h")? as usize;
+                let wd = w["w"].as_u64().ok_or("w")? as usize;
+                (h, wd, size_px(h, wd))
+            };
+            let mut imgs = vec![Img { name: "X".into(), h, w: wd, image: owned(h, wd, &px), px, content: 0 }];
+            assign_contents(&mut imgs);
+            let env = Env { id_of: vec![None], pid_of: vec![None; POSITIONS.len()], imgs, unknown_id: 1, unknown_pid: 1 };
+            let mut world = World::new(false);
+            for (n, op) in MINI.iter().enumerate() {
+                let f: Vec<Finding> = world.apply(&env, op).into_iter().filter(|f| !f.key.contains("p0-unspecified")).collect();
+                bad |= !f.is_empty();
+                show(&world, &env, n, op, &f, &mut text);
+            }
+        }
+        o => return Err(format!("unknown sub-space {o}")),
+    }
+    text.push_str(if bad {
+        "expected: every command well-formed, payload == RGBA pixels, at most one transmission per content (plus one per evicting error), puts name transmitted images, erase(img, Some(cell)) removes exactly the placement draw(img, cell) created"
+    } else {
+        "observed output satisfies the statement on this witness"
+    });
+    Ok((bad, text))
 }
